@@ -256,6 +256,26 @@ fn board_chunk(rng: &mut Rng, events: usize, out: &mut dyn Write) {
                 }
                 writeln!(out, "{}", Value::Object(ev)).unwrap();
                 n += 1;
+                // ask straight away whether the turn may be passed in the edited position
+                if rng.chance(1, 2) {
+                    let mut ev = Map::new();
+                    ev.insert("event".into(), json!("Null"));
+                    let before = b;
+                    match b.null_move() {
+                        None => {
+                            ev.insert("ok".into(), json!(false));
+                            observe(&b, &mut ev);
+                        }
+                        Some(nb) => {
+                            ev.insert("ok".into(), json!(true));
+                            ev.insert("src_unchanged".into(), json!(before == b));
+                            b = nb;
+                            observe(&b, &mut ev);
+                        }
+                    }
+                    writeln!(out, "{}", Value::Object(ev)).unwrap();
+                    n += 1;
+                }
                 continue;
             }
             let ms: Vec<ChessMove> = MoveGen::new_legal(&b).collect();
@@ -754,13 +774,20 @@ fn san_guess(rng: &mut Rng, b: &Board, m: ChessMove, all: &Vec<ChessMove>) -> St
 }
 
 // includes non-ASCII characters whose low byte looks like a file letter or a rank digit (U+0131, U+0161, U+0165, U+0138)
-const NOISE: [&str; 30] = ["a", "h", "1", "8", "x", "N", "K", "Q", "O", "-", "+", "#", "=", " ", "e.p.", "0", "9", "i", "é", "♞", "\u{1F600}", "\u{0}", "ß", ".",
-    "\u{0131}", "\u{0161}", "\u{0165}", "\u{0138}", "\t", "\u{2003}"];
+const NOISE: [&str; 34] = ["a", "h", "1", "8", "x", "N", "K", "Q", "O", "-", "+", "#", "=", " ", "e.p.", "0", "9", "i", "é", "♞", "\u{1F600}", "\u{0}", "ß", ".",
+    "\u{0131}", "\u{0161}", "\u{0165}", "\u{0138}", "\t", "\u{2003}", "\u{212A}", "\u{2126}", "\u{1E9E}", "\u{0130}"];
 
 fn mutate(rng: &mut Rng, s: &str) -> String {
     let chars: Vec<char> = s.chars().collect();
     let mut out: Vec<String> = chars.iter().map(|c| c.to_string()).collect();
-    match rng.below(5) {
+    match rng.below(6) {
+        5 => {
+            // garbage in front, sometimes with the en-passant mark behind it
+            out.insert(0, NOISE[rng.below(NOISE.len())].to_string());
+            if rng.chance(1, 2) {
+                out.push(" e.p.".to_string());
+            }
+        }
         4 => {
             // trailing garbage of a few tokens after an otherwise sound text
             for _ in 0..(1 + rng.below(7)) {
@@ -967,7 +994,10 @@ fn log_outcome(ev: &mut Map<String, Value>, r: std::thread::Result<Result<Board,
 
 fn fen_of(sq: &[u8; 64], stm: u8, cr: u8, epfile: i64, rng: &mut Rng) -> String {
     let p = Pos { sq: *sq, stm, cr, ep: if epfile < 0 { -1 } else { (if stm == b'w' { 40 } else { 16 }) + epfile as i8 } };
-    format!("{} {} {}", p.describe(), rng.below(60), 1 + rng.below(90))
+    // the clocks of a standard FEN are arbitrary non-negative / positive integers (long games included)
+    let half = [rng.below(60), rng.below(60), 99, 100, 255, 256, 300, 1000][rng.below(8)];
+    let full = [1 + rng.below(90), 1 + rng.below(90), 127, 128, 255, 256, 257, 1000, 5949][rng.below(9)];
+    format!("{} {} {}", p.describe(), half, full)
 }
 
 const FEN_NOISE: [&str; 28] = ["/", "8", "1", "9", "0", "k", "K", "p", "P", "q", " ", "w", "b", "-", "KQkq", "e3", "x", "é", "♚", "\u{1F600}", "\t", "//",
@@ -1205,6 +1235,14 @@ fn validate_chunk(rng: &mut Rng, events: usize, out: &mut dyn Write, progress: &
                 } else if roll == 3 {
                     wellformed = false;
                     text = (0..rng.below(40)).map(|_| FEN_NOISE[rng.below(FEN_NOISE.len())]).collect::<Vec<_>>().concat();
+                } else if roll == 5 && rng.chance(1, 2) {
+                    // hostile en-passant fields
+                    wellformed = false;
+                    let mut fields: Vec<String> = text.split(' ').map(|x| x.to_string()).collect();
+                    if fields.len() >= 4 {
+                        fields[3] = ["e\u{e9}", "e\u{0131}", "\u{e9}3", "e", "e33", "-e3", "E3", "e9", "i3", "e\u{1F600}", "\u{2013}", "h\u{0138}"][rng.below(12)].to_string();
+                    }
+                    text = fields.join(" ");
                 } else if roll == 4 {
                     // one whole field replaced by, or prefixed with, noise (other fields stay well formed)
                     wellformed = false;
@@ -1266,6 +1304,18 @@ fn cache_chunk(rng: &mut Rng, events: usize, out: &mut dyn Write, progress: &str
             }
         };
         let def = rng.below(5) as i64;
+        // a payload whose equality is not even reflexive (NaN) must be storable like any other
+        {
+            let r = std::panic::catch_unwind(|| {
+                let mut ft: CacheTable<f64> = CacheTable::new(4, 0.0);
+                ft.add(6, f64::NAN);
+                ft.add(2, 1.5);
+                ft.add(9, f64::NAN);
+                (ft.get(6).is_none(), ft.get(2) == Some(1.5), ft.get(9).map(|x| x.is_nan()).unwrap_or(false))
+            });
+            writeln!(out, "{}", json!({"op": "nan", "panicked": r.is_err(), "ok": r.map(|x| x.0 && x.1 && x.2).unwrap_or(false)})).unwrap();
+            n += 1;
+        }
         let made = std::panic::catch_unwind(|| CacheTable::<CV>::new(size, CV { k: def, a: 0 }));
         writeln!(out, "{}", json!({"op": "new", "n": size, "def": def, "panicked": made.is_err()})).unwrap();
         n += 1;
@@ -1288,6 +1338,12 @@ fn cache_chunk(rng: &mut Rng, events: usize, out: &mut dyn Write, progress: &str
             pool.push(pool[i] ^ (1u64 << 32));
             pool.push(pool[i] ^ (1u64 << 63));
             pool.push(pool[i] ^ 0xFFFF_FFFF_0000_0000);
+            // same slot, and the same value when both halves of the word are folded together
+            for x in [1u64 << 31, 1u64 << 24, 0x00FF_0000u64].iter() {
+                if (*x & (size as u64).wrapping_sub(1)) == 0 {
+                    pool.push(pool[i] ^ (x << 32) ^ x);
+                }
+            }
         }
         let ops = 50 + rng.below(400);
         for _ in 0..ops {
@@ -1308,7 +1364,22 @@ fn cache_chunk(rng: &mut Rng, events: usize, out: &mut dyn Write, progress: &str
                 }
                 1 => {
                     let x = rng.below(7) as i64;
-                    let (pk, px) = [("always", 0), ("never", 0), ("eq", x), ("lt", x), ("ge", x)][rng.below(5)];
+                    let (pk, px) = [("always", 0), ("never", 0), ("eq", x), ("lt", x), ("ge", x), ("panic", 0)][rng.below(6)];
+                    if pk == "panic" {
+                        // a predicate that unwinds has not said "yes": the slot must be left as it was
+                        let seen = std::cell::Cell::new((-1i64, -1i64));
+                        let r = std::panic::catch_unwind(std::panic::AssertUnwindSafe(|| {
+                            t.replace_if(h, val, |c| {
+                                seen.set((c.k, c.a));
+                                panic!("predicate gives up")
+                            })
+                        }));
+                        writeln!(out, "{}", json!({"op": "replace_if", "tag": tag.to_string(), "idx": idx, "v": v, "aux": stamp, "pk": "panic", "px": 0,
+                                                  "called_with": seen.get().0, "called_aux": seen.get().1, "unwound": r.is_err()})).unwrap();
+                        std::fs::remove_file(progress).ok();
+                        n += 1;
+                        continue;
+                    }
                     let seen = std::cell::Cell::new((-1i64, -1i64));
                     t.replace_if(h, val, |c| {
                         seen.set((c.k, c.a));
@@ -1372,7 +1443,20 @@ fn bits_chunk(rng: &mut Rng, events: usize, out: &mut dyn Write) {
             // provided Iterator methods (nth / skip / step_by / last / max / min / count / collect)
             let n_arg = match rng.below(4) { 0 => a.popcnt() as usize, 1 => a.popcnt() as usize + 1, 2 => 0, _ => rng.below(66) };
             let one = |o: Option<Square>| -> Vec<usize> { o.map(|s| vec![s.to_index()]).unwrap_or_default() };
-            let ev = match rng.below(8) {
+            let ev = match rng.below(10) {
+                8 => {
+                    // internal iteration: fold / for_each visit the same squares in the same order
+                    let folded = a.fold(Vec::new(), |mut acc, s| {
+                        acc.push(s.to_index());
+                        acc
+                    });
+                    json!({"op": "adaptor", "what": "collect", "a": la, "n": 0, "ret": folded})
+                }
+                9 => {
+                    let mut seen = vec![];
+                    a.for_each(|s| seen.push(s.to_index()));
+                    json!({"op": "adaptor", "what": "collect", "a": la, "n": 0, "ret": seen})
+                }
                 0 => {
                     let mut it = a;
                     let r = it.nth(n_arg);
@@ -1446,7 +1530,7 @@ fn bits_chunk(rng: &mut Rng, events: usize, out: &mut dyn Write) {
 fn mine_chunk(rng: &mut Rng, events: usize, out: &mut dyn Write) {
     let mut n = 0;
     let mut tries: u64 = 0;
-    let mut quota = [0usize; 12];
+    let mut quota = [0usize; 13];
     let kinds_w = b"PPPNBRQ";
     let kinds_b = b"pppnbrq";
     while n < events && tries < 40_000_000 {
@@ -1544,13 +1628,16 @@ fn mine_chunk(rng: &mut Rng, events: usize, out: &mut dyn Write) {
             Err(_) => continue,
         };
         let nmoves = MoveGen::new_legal(&b).len();
-        if nmoves > 2 {
+        let double_with_pin = b.checkers().popcnt() >= 2 && (*b.pinned() & *b.color_combined(b.side_to_move())) != EMPTY;
+        if nmoves > 2 && !double_with_pin {
             continue;
         }
         let own = *b.color_combined(b.side_to_move());
         let seventh = (b.pieces(Piece::Pawn) & own & get_rank(b.side_to_move().to_seventh_rank())) != EMPTY;
         // quota per class, so that the cheap classes (in check, few moves) do not crowd out the rare ones
-        let class = if b.en_passant().is_some() {
+        let class = if double_with_pin {
+            12
+        } else if b.en_passant().is_some() {
             if *b.checkers() != EMPTY { 0 } else if nmoves == 0 { 1 } else { 2 }
         } else if (*b.pinned() & own) != EMPTY {
             if *b.checkers() != EMPTY { 3 } else if nmoves == 0 { 4 } else { 5 }
@@ -1565,7 +1652,7 @@ fn mine_chunk(rng: &mut Rng, events: usize, out: &mut dyn Write) {
         } else {
             11
         };
-        let cap = [events / 8, events / 8, events / 8, events / 10, events / 8, events / 8, events / 10, events / 12, events / 20, events / 20, events / 12, events / 20][class].max(1);
+        let cap = [events / 8, events / 8, events / 8, events / 10, events / 8, events / 8, events / 10, events / 12, events / 20, events / 20, events / 12, events / 20, events / 10][class].max(1);
         if quota[class] >= cap {
             continue;
         }
